@@ -52,37 +52,56 @@ def tables():
     return values, excs, escapes
 
 
-def drive_session(scripts):
+class Attempt:
+    """One production of a source by get_sources() and what its authenticate() then did."""
+
+    def __init__(self, src, sid, kind, idx):
+        self.src, self.sid, self.kind, self.idx = src, sid, kind, idx
+        self.produced = None
+        self.seen_transport = None
+
+
+def drive_session(scripts, share=False):
     """scripts: list of scripts, each a list of (sid, kind, idx), kind 0 returns / 1 raises / 2 escapes.
     ONE strategy object; authenticate() is called once per script, in order.
+    share=True: entries with the same sid are the SAME AuthSource object (yielded again: a retried source),
+    also across the calls of the session; otherwise every entry is a fresh object.
     Returns [(canonical list, details for the oracle)] per call."""
     from paramiko.auth_strategy import AuthStrategy, AuthSource, AuthResult, AuthFailure, SourceResult
     from paramiko.config import SSHConfig
     values, excs, escapes = tables()
     state = {"trace": None, "made": None, "script": None}
+    shared = {}
 
     class ScriptedSource(AuthSource):
-        def __init__(self, sid, kind, idx, trace):
+        def __init__(self, sid):
             super().__init__(username="user")
-            self.sid, self.kind, self.idx, self.trace = sid, kind, idx, trace
-            self.produced = None
-            self.seen_transport = None
+            self.sid = sid
+            self.pending = []
 
         def authenticate(self, transport):
-            self.trace.extend([2, self.sid])
-            self.seen_transport = transport
-            if self.kind == 0:
-                self.produced = values[self.idx]()
-                return self.produced
-            self.produced = (excs if self.kind == 1 else escapes)[self.idx]()
-            raise self.produced
+            state["trace"].extend([2, self.sid])
+            att = self.pending.pop(0)
+            att.seen_transport = transport
+            if att.kind == 0:
+                att.produced = values[att.idx]()
+                return att.produced
+            att.produced = (excs if att.kind == 1 else escapes)[att.idx]()
+            raise att.produced
 
     class Scripted(AuthStrategy):
         def get_sources(self):
             trace, made = state["trace"], state["made"]
             for sid, kind, idx in state["script"]:
-                src = ScriptedSource(sid, kind, idx, trace)
-                made.append(src)
+                if share:
+                    src = shared.get(sid)
+                    if src is None:
+                        src = shared[sid] = ScriptedSource(sid)
+                else:
+                    src = ScriptedSource(sid)
+                att = Attempt(src, sid, kind, idx)
+                src.pending = [att]
+                made.append(att)
                 trace.extend([1, sid])
                 yield src
 
@@ -104,10 +123,12 @@ def drive_session(scripts):
         info["AuthResult"], info["SourceResult"], info["AuthFailure"] = AuthResult, SourceResult, AuthFailure
 
         def canon_results(r):
+            # entry j of the result against attempt j (same source object, the object it returned / raised)
             o = []
-            for x in r:
-                src = x.source
-                o += [getattr(src, "sid", -99), getattr(src, "kind", -99), getattr(src, "idx", -99)]
+            for j, x in enumerate(r):
+                att = made[j] if j < len(made) else None
+                same = att is not None and x.source is att.src and x.result is att.produced
+                o += [getattr(x.source, "sid", -99), att.kind if same else -99, att.idx if same else -99]
             return o
 
         if info["final"] == "return":
@@ -131,12 +152,16 @@ def drive(script):
     return drive_session([script])[0]
 
 
-def oracle(ctx, script, info, history=()):
+def oracle(ctx, script, info, history=(), share=False):
     """The property, stated on the real objects.  history = the scripts already run on the same strategy
     object before this call (the property holds for every call, whatever happened before)."""
     case = {"session": [[list(x) for x in h] for h in history] + [[list(x) for x in script]]}
+    if share:
+        case["share"] = True
+        case["note"] = "entries with the same id are the same AuthSource object, yielded again"
     if history:
-        case["note"] = "authenticate() call number %d on the same AuthStrategy object" % (len(history) + 1)
+        case["note"] = (case.get("note", "") + "; authenticate() call number %d on the same AuthStrategy object"
+                        % (len(history) + 1)).lstrip("; ")
     made, trace = info["made"], info["trace"]
     first = next((i for i, (_, k, _) in enumerate(script) if k != 1), None)
     attempted = len(script) if first is None else first + 1
@@ -156,7 +181,7 @@ def oracle(ctx, script, info, history=()):
         if not isinstance(res, info["AuthResult"]) or res.strategy is not info["strategy"] or len(res) != n:
             return False
         for x, s in zip(res, made):
-            if not isinstance(x, info["SourceResult"]) or x.source is not s or x.result is not s.produced:
+            if not isinstance(x, info["SourceResult"]) or x.source is not s.src or x.result is not s.produced:
                 return False
         return True
 
@@ -380,7 +405,8 @@ def run(ctx):
                 "exception classes assigned by a fixed rotation over %d values / %d Exception classes); plus "
                 "seeded random scripts of 0..14 sources with uncaught BaseExceptions (%d kinds), repeated source "
                 "ids and random values; plus sessions of 2..4 authenticate() calls on ONE strategy object (all "
-                "ordered pairs of 10 representative scripts + random sessions), every call checked. "
+                "ordered pairs of 10 representative scripts + random sessions), every call checked; scripts in which "
+                "the SAME source object is yielded more than once (retried source) within and across calls. "
                 "Non-trivial = distinct script with at least one source"
                 % (len(values), len(excs), len(escapes)))
     ctx.trusted += ["model coq/Model/C44.v is hand-written; tied to AuthStrategy.authenticate by this run",
@@ -422,13 +448,22 @@ def run(ctx):
         one(script, "random")
 
     # ---- several authenticate() calls on ONE strategy object -------------------------
-    def session(scripts, kind):
-        res = drive_session(scripts)
+    def session(scripts, kind, share=False):
+        res = drive_session(scripts, share=share)
         for i, (canon, info) in enumerate(res):
-            oracle(ctx, scripts[i], info, history=scripts[:i])
+            oracle(ctx, scripts[i], info, history=scripts[:i], share=share)
             cases.append((scripts[i], canon))
-            ctx.count(("session", tuple(map(tuple, scripts[:i + 1]))), nontrivial=len(scripts[i]) > 0,
+            ctx.count(("session", share, tuple(map(tuple, scripts[:i + 1]))), nontrivial=len(scripts[i]) > 0,
                       kind=kind + ("-first" if i == 0 else "-later"))
+
+    # the SAME source object yielded more than once (a retried source), within a call and across calls
+    retry = [[(1, 1, 0), (1, 0, 0)], [(1, 1, 0), (2, 1, 5), (1, 1, 3)], [(1, 1, 2), (2, 1, 1), (1, 0, 1), (2, 1, 0)],
+             [(1, 1, 0), (1, 1, 1), (1, 1, 2)], [(5, 1, 4), (6, 1, 0), (6, 1, 7), (5, 0, 3)], [(1, 0, 2), (1, 1, 0)],
+             [(1, 1, 0), (2, 2, 0), (1, 0, 0)]]
+    for a in retry:
+        session([a], "same-object-retried", share=True)
+        for b in retry[:4]:
+            session([a, b], "same-object-retried", share=True)
 
     rep = [[], [(1, 0, 0)], [(1, 1, 0)], [(1, 1, 5), (2, 1, 1)], [(1, 1, 2), (2, 0, 1), (3, 1, 0)],
            [(1, 0, 2), (2, 1, 0)], [(1, 1, 0), (2, 1, 3), (3, 0, 4)], [(1, 2, 0)], [(1, 1, 1), (2, 2, 1), (3, 0, 0)],
@@ -442,10 +477,11 @@ def run(ctx):
             sc = []
             for pos in range(rng.randrange(0, 5)):
                 u = rng.random()
-                sc.append((pos, 0, rng.randrange(len(values))) if u < 0.25 else
-                          (pos, 2, rng.randrange(len(escapes))) if u < 0.32 else (pos, 1, rng.randrange(len(excs))))
+                sid = rng.choice([pos, pos, rng.randrange(0, 3)])
+                sc.append((sid, 0, rng.randrange(len(values))) if u < 0.25 else
+                          (sid, 2, rng.randrange(len(escapes))) if u < 0.32 else (sid, 1, rng.randrange(len(excs))))
             scripts.append(sc)
-        session(scripts, "session-random")
+        session(scripts, "session-random", share=rng.random() < 0.5)
     # ---- glue: the real AuthSource classes over a recording transport, directly and through
     #      SSHClient.connect(auth_strategy=..., transport_factory=...) -----------------------------
     def glue(order, plan_spec, via_client):
@@ -497,8 +533,9 @@ def replay(ctx, rep):
             ctx.fail(key, what, case=case, expected=exp, observed=obs)
         return
     scripts = [[tuple(x) for x in sc] for sc in (case["session"] if "session" in case else [case["script"]])]
-    res = drive_session(scripts)
+    share = bool(case.get("share"))
+    res = drive_session(scripts, share=share)
     ctx.count(("replay", repr(scripts)))
     ctx.count(("replay2", repr(scripts)))
     for i, (canon, info) in enumerate(res):
-        oracle(ctx, scripts[i], info, history=scripts[:i])
+        oracle(ctx, scripts[i], info, history=scripts[:i], share=share)
